@@ -92,6 +92,7 @@ type Contract struct {
 	Assigns   []string
 	Cuts      []*CutSpec
 	Applies   []*ApplySpec
+	Limits    []*CutSpec // scope restriction: paths reaching the anchor are outside the contract (every ensures guard is proved false there)
 	Mentions  []*Clause
 }
 
@@ -118,7 +119,7 @@ type ContractFile struct {
 	Lemmas []*Lemma
 }
 
-var kwRe = regexp.MustCompile(`^(apply|mention|cut|func|lemma|mode|returns|logical|requires|ensures|loop|call|waive|panics|props|trusted|assert|assume|split|nosafety|forall|hyp|holds|export|uses|assigns)\b`)
+var kwRe = regexp.MustCompile(`^(limit|apply|mention|cut|func|lemma|mode|returns|logical|requires|ensures|loop|call|waive|panics|props|trusted|assert|assume|split|nosafety|forall|hyp|holds|export|uses|assigns)\b`)
 
 func parseContractFile(path string) (*ContractFile, error) {
 	f, err := os.Open(path)
@@ -427,6 +428,16 @@ func parseContractFile(path string) (*ContractFile, error) {
 				return nil, err
 			}
 			cur.Applies = append(cur.Applies, ap)
+		case "limit":
+			m := regexp.MustCompile(`^before\s+"([^"]*)"(#(\d+))?\s*(:\s*(.*))?$`).FindStringSubmatch(rest)
+			if m == nil {
+				return nil, fail("bad limit clause")
+			}
+			ord := 1
+			if m[3] != "" {
+				ord, _ = strconv.Atoi(m[3])
+			}
+			cur.Limits = append(cur.Limits, &CutSpec{Text: m[1], Ord: ord})
 		case "mention":
 			c, err := mkClause(rest, it.line)
 			if err != nil {
